@@ -111,6 +111,7 @@ def selection_factories(z):
     F['mask'] = lambda: S.MaskSubsetState(_mask_pattern(shape), list(z.d.pixel_component_ids))
     F['slice'] = lambda: S.SliceSubsetState(z.d, [slice(0, shape[k], 2) if k == nd - 1 else slice(0, max(1, shape[k] - 1))
                                                    for k in range(nd)])
+    F['slice_offset'] = lambda: S.SliceSubsetState(z.d, [slice(None)] * (nd - 1) + [slice(1, shape[-1], 2)])
     F['slice_partial'] = lambda: S.SliceSubsetState(z.d, [slice(None)] * (nd - 1) + [slice(shape[-1] - 1, shape[-1])])
     F['element'] = lambda: S.ElementSubsetState(indices=[0, n - 1])
     F['element_bound'] = lambda: S.ElementSubsetState(indices=[n // 2], data=z.d)
@@ -131,6 +132,7 @@ def selection_factories(z):
                                                            roi=R.EllipticalROI(1.0, 1.0, 1.2, 0.7))
     else:
         F['roi_rect_pixel_mixed'] = lambda: S.RoiSubsetState(xatt=z.pix[0], yatt=z.i, roi=R.RectangularROI(0.5, 5.5, -2.5, 0.5))
+    F['roi_nd_2att'] = lambda: S.RoiSubsetStateNd(atts=[z.f, z.i], roi=R.RectangularROI(-0.75, 1.25, -1.5, 1.5))
     proj = np.array([[1.0, 0.0, 0.0, 0.0], [0.0, 1.0, 0.0, 0.0], [0.0, 0.0, 1.0, 0.0], [0.0, 0.0, 0.0, 1.0]])
     F['roi3d'] = lambda: S.RoiSubsetState3d(z.f, z.i, z.g, R.Projected3dROI(R.RectangularROI(-0.75, 1.75, -1.5, 1.5), proj))
     start = tuple(0 for _ in range(nd))
